@@ -130,6 +130,24 @@ func (p *Policy) fromCedar(parser *parser) error {
 type parser struct {
 	tokens []Token
 	pos    int
+	depth  int
+}
+
+// maxExpressionDepth bounds the nesting of expressions (parentheses, sets, records, call
+// arguments, if-then-else): the parser is recursive and must not exhaust the stack on hostile input.
+const maxExpressionDepth = 1000
+
+// maxChainLength bounds operator chains that are parsed by a loop but build a tree as deep as
+// the chain is long (a || b || ..., a + b + ..., !!!x, x.a.b.c...): compiling, evaluating and
+// rendering such a tree is recursive.
+const maxChainLength = 4096
+
+func (p *parser) chain(n *int) error {
+	*n++
+	if *n > maxChainLength {
+		return p.errorf("operator chain exceeds %d elements", maxChainLength)
+	}
+	return nil
 }
 
 func newParser(tokens []Token) parser {
@@ -473,6 +491,11 @@ func (p *parser) condition() (ast.Node, error) {
 }
 
 func (p *parser) expression() (ast.Node, error) {
+	p.depth++
+	defer func() { p.depth-- }()
+	if p.depth > maxExpressionDepth {
+		return ast.Node{}, p.errorf("expression nesting exceeds %d levels", maxExpressionDepth)
+	}
 	t := p.peek()
 	if t.Text == "if" {
 		p.advance()
@@ -510,7 +533,11 @@ func (p *parser) or() (ast.Node, error) {
 		return ast.Node{}, err
 	}
 
+	n := 0
 	for p.peek().Text == "||" {
+		if err := p.chain(&n); err != nil {
+			return ast.Node{}, err
+		}
 		p.advance()
 		rhs, err := p.and()
 		if err != nil {
@@ -528,7 +555,11 @@ func (p *parser) and() (ast.Node, error) {
 		return ast.Node{}, err
 	}
 
+	n := 0
 	for p.peek().Text == "&&" {
+		if err := p.chain(&n); err != nil {
+			return ast.Node{}, err
+		}
 		p.advance()
 		rhs, err := p.relation()
 		if err != nil {
@@ -659,6 +690,7 @@ func (p *parser) add() (ast.Node, error) {
 		return ast.Node{}, err
 	}
 
+	n := 0
 	for {
 		t := p.peek()
 		var operator func(ast.Node, ast.Node) ast.Node
@@ -671,6 +703,9 @@ func (p *parser) add() (ast.Node, error) {
 
 		if operator == nil {
 			break
+		}
+		if err := p.chain(&n); err != nil {
+			return ast.Node{}, err
 		}
 
 		p.advance()
@@ -690,7 +725,11 @@ func (p *parser) mult() (ast.Node, error) {
 		return ast.Node{}, err
 	}
 
+	n := 0
 	for p.peek().Text == "*" {
+		if err := p.chain(&n); err != nil {
+			return ast.Node{}, err
+		}
 		p.advance()
 		rhs, err := p.unary()
 		if err != nil {
@@ -708,6 +747,9 @@ func (p *parser) unary() (ast.Node, error) {
 		opToken := p.peek()
 		if opToken.Text != "-" && opToken.Text != "!" {
 			break
+		}
+		if len(ops) >= maxChainLength {
+			return ast.Node{}, p.errorf("operator chain exceeds %d elements", maxChainLength)
 		}
 		p.advance()
 		ops = append(ops, opToken.Text == "-")
@@ -768,11 +810,17 @@ func (p *parser) member() (ast.Node, error) {
 	if err != nil {
 		return res, err
 	}
+	n := 0
 	for {
 		var ok bool
 		res, ok, err = p.access(res)
 		if err != nil {
 			return ast.Node{}, err
+		}
+		if ok {
+			if err := p.chain(&n); err != nil {
+				return ast.Node{}, err
+			}
 		}
 
 		if !ok {
